@@ -124,10 +124,12 @@ def snapshotBegin (n : Node) : Option (SnapLabel × List Effect) :=
     | some e => some (⟨e.index, e.term, cc⟩, [.snapNew e.index e.term])
 
 /-- Second locked section of `takeSnapshot`, after `fsm.Snapshot` wrote `content` with the
-    lock released and the file was closed. -/
+    lock released: the file is closed (published) here, under the lock, unless the snapshot
+    was overtaken. -/
 def snapshotEnd (n : Node) (l : SnapLabel) (content : List Nat) : Node × List Effect :=
-  let n1 := { n with snaps := n.snaps ++ [{ index := l.index, term := l.term, data := content }] }
-  if l.index ≤ n1.snapIndex then (n1, [.snapClose]) else
+  -- overtaken by an installed snapshot while the lock was released: not published (fix S10)
+  if l.index ≤ n.snapIndex then (n, [.snapDiscard]) else
+  let n1 : Node := { n with snaps := n.snaps ++ [{ index := l.index, term := l.term, data := content }] }
   match n1.log.compact l.index with
   | some lg =>
     let r := ({ n1 with snapIndex := l.index, snapTerm := l.term, log := lg } : Node).resetSnapshots
